@@ -2126,8 +2126,11 @@ class ImageIterator:
         try:
             self._animator.close()
             del self._animator
-            self._image._close_image(self._img)
+            img = self._img
             del self._img
+            # Not `_close_image()`; the image may have been finalized already
+            if self._image._source_type is not ImageSource.PIL_IMAGE:
+                img.close()
         except AttributeError:
             pass
 
